@@ -21,7 +21,7 @@ import (
 func init() {
 	logging.Root().SetHandler(logging.DiscardHandler())
 	kit.Register(&kit.Check{
-		Prop: "C02", Name: "votedb", World: "VOTEDB", Level: "fault_enumeration", Share: 1,
+		Prop: "C02", Name: "votedb", World: "VOTEDB", Level: "exploration", Share: 1,
 		Rule: "one run = a seeded history of consensus contexts (round, index) as a real engine produces them (index advances, possibly by jumps; new round at index 1; " +
 			"after a restart or a Pause/Resume the engine re-enters at (head+1, 1), i.e. possibly the SAME round at index 1) and vote attempts of all four kinds " +
 			"(prevote, precommit, next-index, certificate) in the current context through the real VoteDB API; faults: process crash+restart (fresh NewVoteDB on the " +
